@@ -29,8 +29,12 @@ import (
 	"testing"
 	"time"
 
+	"github.com/DataDog/datadog-go/v5/statsd"
 	"github.com/dgraph-io/badger/v4"
+	"go.uber.org/zap"
 	"pgregory.net/rapid"
+
+	"github.com/mimiro-io/datahub/internal/conf"
 
 	"github.com/mimiro-io/datahub/internal/server"
 	"github.com/mimiro-io/datahub/internal/service/entity"
@@ -1546,4 +1550,145 @@ func TestVerifProbe_F36(t *testing.T) {
 	g.apply(c13Op{K: "failpost", DS: "a", Via: "http", Ents: []c13E{{NS: "http://ex.org/gen/1/", Local: "x", Form: "full"}}})
 	g.apply(c13Op{K: "restart"})
 	g.apply(c13Op{K: "post", DS: "a", Via: "http", Ents: []c13E{{NS: "http://ex.org/gen/2/", Local: "e0", Form: "full"}}})
+}
+
+// ---- (e) the first namespaces of a brand-new store ----------------------------------------
+//
+// The machines above start from a hub that already carries namespaces (kit.Hub introduces its pool when
+// it opens). Here the store directory is empty and server.NewStore is all that ran: the namespace table
+// has never been written. Namespaces are introduced one at a time through the two assertion entry points,
+// some of the table writes are refused by the storage (fault store.object), the store is restarted, and
+// after every step everything a reader can be told (context, lookup by expansion, curie expansion) is
+// compared with what readers were told before: one-to-one, and never taken back or given to another
+// namespace. A refused request may or may not leave its mapping behind; what counts is what is served.
+
+type c13FirstOp struct {
+	K    string `json:"k"` // assert | fail | restart
+	NS   string `json:"ns,omitempty"`
+	Via  string `json:"via,omitempty"` // manager | curie
+	Seen string `json:"-"`
+}
+
+func TestVerif_C13_firstns(t *testing.T) {
+	defer kit.S().Flush()
+	defer kit.CleanupScratch()
+	pool := []string{"http://first.example/a/", "http://first.example/b#", "https://first.example/c/", "http://first.example/d/e/"}
+	rapid.Check(t, func(t *rapid.T) {
+		verifhook.Reset()
+		defer verifhook.Reset()
+		dir := kit.NewDir("c13first")
+		defer os.RemoveAll(dir)
+		open := func() *server.Store {
+			return server.NewStore(&conf.Config{Logger: zap.NewNop().Sugar(), StoreLocation: dir, BlockCacheSize: 32 << 20}, &statsd.NoOpClient{})
+		}
+		s := open()
+		defer func() { _ = s.Close() }()
+		var hist []c13FirstOp
+		served := map[string]string{} // prefix -> expansion, as told to any reader so far
+		cls := map[string]bool{}
+		fail := func(format string, a ...any) { c13Fail(t, hist, format, a...) }
+		check := func(when string) {
+			ctx := s.GetGlobalContext(false).Namespaces
+			now := map[string]string{}
+			for p, e := range ctx {
+				now[p] = e
+			}
+			for _, e := range pool {
+				if p, err := s.NamespaceManager.GetPrefixMappingForExpansion(e); err == nil {
+					if prev, ok := now[p]; ok && prev != e {
+						fail("BIJECTION %s: prefix %s stands for %q in the context and is the prefix of %q", when, p, prev, e)
+					}
+					now[p] = e
+					if full, err := s.ExpandCurie(p + ":x"); err != nil || full != e+"x" {
+						fail("ROUNDTRIP %s: %q has prefix %s, but %s:x expands to %q (%v)", when, e, p, p, full, err)
+					}
+				}
+			}
+			if m := c13Bijective(now); m != "" {
+				fail("BIJECTION %s: %s", when, m)
+			}
+			for _, p := range kit.SortedKeys(served) {
+				if now[p] != served[p] {
+					fail("PERMANENCE %s: prefix %s was served for %q, now it stands for %q", when, p, served[p], now[p])
+				}
+			}
+			for p, e := range now {
+				served[p] = e
+			}
+		}
+		steps := 0
+		t.Repeat(map[string]func(*rapid.T){
+			"assert": func(t *rapid.T) {
+				op := c13FirstOp{K: "assert", NS: rapid.SampledFrom(pool).Draw(t, "ns"), Via: rapid.SampledFrom([]string{"manager", "curie"}).Draw(t, "via")}
+				if rapid.IntRange(0, 2).Draw(t, "refused") == 0 {
+					op.K = "fail"
+				}
+				hist = append(hist, op)
+				_, known := func() (string, bool) {
+					p, err := s.NamespaceManager.GetPrefixMappingForExpansion(op.NS)
+					return p, err == nil
+				}()
+				hit := 0
+				if op.K == "fail" {
+					verifhook.SetFault("store.object", func(int) error {
+						if c13InStack(".AssertPrefixMappingForExpansion") {
+							hit++
+							return errors.New("verif: injected storage failure while persisting the namespace table")
+						}
+						return nil
+					})
+				}
+				var p string
+				var err error
+				if op.Via == "manager" {
+					p, err = s.NamespaceManager.AssertPrefixMappingForExpansion(op.NS)
+				} else {
+					var c string
+					c, err = s.GetNamespacedIdentifier(op.NS+"x", nil)
+					if err == nil && strings.Contains(c, ":") {
+						p = c[:strings.Index(c, ":")]
+					}
+				}
+				verifhook.SetFault("store.object", nil)
+				switch {
+				case op.K == "fail" && hit > 0:
+					// Store.GetNamespacedIdentifier answers ("", nil) for an http:// URI whose namespace could not
+					// be introduced: no prefix is handed out, which is all this property is about
+					if err == nil && p != "" {
+						fail("FAILED-PERSIST-ACCEPTED the namespace table could not be stored, %q was answered with prefix %s all the same", op.NS, p)
+					}
+					cls["namespace-persist-failure"] = true
+					if len(served) == 0 {
+						cls["persist-failure-before-any-namespace-is-stored"] = true
+					}
+				case err != nil:
+					fail("assert %q: %v", op.NS, err)
+				default:
+					if prev, ok := served[p]; ok && prev != op.NS {
+						fail("BIJECTION prefix %s was served for %q and is handed out for %q", p, prev, op.NS)
+					}
+					served[p] = op.NS
+					if !known {
+						cls["namespace-introduced"] = true
+					}
+				}
+				steps++
+				check("after " + op.K + " " + op.NS)
+			},
+			"restart": func(t *rapid.T) {
+				if rapid.IntRange(0, 1).Draw(t, "do") != 0 {
+					t.Skip("restart thinned out")
+				}
+				hist = append(hist, c13FirstOp{K: "restart"})
+				if err := s.Close(); err != nil {
+					t.Fatalf("VERIF-INFRA close: %v", err)
+				}
+				s = open()
+				cls["restart"] = true
+				steps++
+				check("after restart")
+			},
+		})
+		kit.S().Case(hist, cls["persist-failure-before-any-namespace-is-stored"], kit.SortedKeys(cls)...)
+	})
 }
